@@ -111,6 +111,30 @@ class Facts:
                 self.tuples[st.name] = [x.target.id for x in st.body if isinstance(x, ast.AnnAssign) and isinstance(x.target, ast.Name)]
         self._sections: T.Optional[T.Any] = None
 
+    def helper(self, name: str) -> T.Optional[T.Any]:
+        """A private method of the parser that parse_line / parse_test may call as a statement; its paths are spliced into the rows."""
+        if name in ('parse_line', 'parse_test', 'parse', 'parse_async'):
+            return None
+        return self.mod.methods(PARSER).get(name)
+
+    def reach(self) -> T.Set[str]:
+        """parse_line and the helpers it calls as statements (two levels), i.e. the functions the tables cover."""
+        meths = self.mod.methods(PARSER)
+        seen = {'parse_line'}
+        level = ['parse_line']
+        for _ in range(2):
+            nxt = []
+            for q in level:
+                for n in walk_no_nested(meths[q]):
+                    if isinstance(n, ast.Expr):
+                        c = n.value.value if isinstance(n.value, ast.YieldFrom) else n.value
+                        if isinstance(c, ast.Call) and isinstance(c.func, ast.Attribute) and attr_chain(c.func.value) == 'self' \
+                                and self.helper(c.func.attr) is not None and c.func.attr not in seen:
+                            seen.add(c.func.attr)
+                            nxt.append(c.func.attr)
+            level = nxt
+        return seen
+
     def fold(self, name: str) -> T.Any:
         if not self.mod.has_assign(name, self.cls):
             raise AnchorMissing(f'{MTEST}: {PARSER}.{name} not found')
@@ -237,15 +261,15 @@ class Sections:
         kinds = [FORM_OF[mk[2]] for mk in marks]
         if sorted(kinds) != sorted(MAIN_KINDS):
             raise Undecided(f'parse_line: line-form sections found for {kinds}, expected one each of {list(MAIN_KINDS)}')
-        self.pre, pre_exit = build(fn, text[:marks[0][0]], 'parse_line[state, blank/diagnostic]')
+        self.pre, pre_exit = build(fn, text[:marks[0][0]], 'parse_line[state, blank/diagnostic]', helpers=f.helper)
         self.by_kind: T.Dict[str, Section] = {}
         for first, i, rn, var, mexpr, st in marks:
             seed = dict(pre_exit)
             seed[var] = _Sub(pre_exit, ps).visit(_copy(mexpr))
-            tab, _ = build(fn, st.body, f'parse_line[{FORM_OF[rn]} line]', seed)
+            tab, _ = build(fn, st.body, f'parse_line[{FORM_OF[rn]} line]', seed, helpers=f.helper)
             self.by_kind[FORM_OF[rn]] = Section(FORM_OF[rn], rn, tab, st)
-        self.post, _ = build(fn, text[marks[-1][1] + 1:], 'parse_line[unknown line]', dict(pre_exit))
-        self.eof, _ = build(fn, eof, 'parse_line[end of stream]')
+        self.post, _ = build(fn, text[marks[-1][1] + 1:], 'parse_line[unknown line]', dict(pre_exit), helpers=f.helper)
+        self.eof, _ = build(fn, eof, 'parse_line[end of stream]', helpers=f.helper)
         self.line_def = norm(pre_exit[self.line]) if self.line in pre_exit else 'ARG1'
         self.all_tables = [self.pre] + [s.table for s in self.by_kind.values()] + [self.post, self.eof]
 
@@ -272,7 +296,10 @@ def facts(ctx: RuleCtx) -> Facts:
 # atom and effect shapes
 # ----------------------------------------------------------------------------------------------
 def _e(text: str) -> ast.AST:
-    return ast.parse(text, mode='eval').body
+    try:
+        return ast.parse(text, mode='eval').body
+    except SyntaxError:
+        raise Undecided(f'condition text outside the expression subset: {text[:80]!r}')
 
 
 def _truthy(a: Atom) -> T.Optional[T.Tuple[ast.AST, bool]]:
@@ -871,7 +898,7 @@ def _check_parse_test(m: Model) -> None:
     qn = f'{PARSER}.parse_test'
     if len(param_names(fn)) != 5:
         raise Undecided(f'{qn}: expected (ok, num, name, directive, explanation)')
-    tab, _ = build(fn, fn.body, 'parse_test')
+    tab, _ = build(fn, fn.body, 'parse_test', helpers=f.helper)
     ups = {'ARG4.upper()': ('SKIP', "'TODO'"), 'ARG4.lower()': ('skip', "'todo'"), 'ARG4.casefold()': ('skip', "'todo'")}
 
     def word(recv: str, const: T.Any, prefix: bool, node_text: str) -> T.Optional[str]:
@@ -1042,12 +1069,13 @@ def r1(ctx: RuleCtx) -> None:
         for n in walk_no_nested(fn):
             if isinstance(n, ast.Attribute) and isinstance(n.ctx, ast.Store) and n.attr in FIELDS and attr_chain(n.value) == 'self':
                 writers.append((name, n))
-    outside = sorted({f'{name} writes self.{n.attr}' for name, n in writers if name != 'parse_line'})
+    reach = f.reach()
+    outside = sorted({f'{name} writes self.{n.attr}' for name, n in writers if name not in reach or (n.attr == 'state' and name != 'parse_line')})
     if outside:
-        raise Undecided(f'parser fields are written outside parse_line: {"; ".join(outside)}')
+        raise Undecided(f'parser fields are written outside parse_line and the helpers spliced into its tables (state: outside parse_line): {"; ".join(outside)}')
     nstate = sum(1 for _, n in writers if n.attr == 'state')
     ctx.floor('writes of self.state', nstate, 4)
-    ctx.ok(f'all {len(writers)} writes of the parser fields ({nstate} of self.state) are in parse_line: its tables describe every transition')
+    ctx.ok(f'all {len(writers)} writes of the parser fields ({nstate} of self.state) are in {sorted(reach)}: the tables describe every transition')
     # constant propagation of state on the CFG
     cfg, IN = _state_flow(f)
     reach = cfg.reachable([cfg.entry])
@@ -1298,7 +1326,7 @@ def r4(ctx: RuleCtx) -> None:
     m = model(ctx)
     f = m.f
     mod = f.mod
-    pt_tab, _ = build(f.parse_test, f.parse_test.body, 'parse_test')
+    pt_tab, _ = build(f.parse_test, f.parse_test.body, 'parse_test', helpers=f.helper)
     all_tabs: T.List[T.Tuple[str, tables.Table]] = [(f'{PARSER}.parse_line', t) for t in m.s.all_tables] + [(f'{PARSER}.parse_test', pt_tab)]
     # (1) int() fed by a capture group whose language is an unbounded digit run
     seen_args: T.Dict[int, T.Dict[str, ast.AST]] = {}
@@ -1307,7 +1335,9 @@ def r4(ctx: RuleCtx) -> None:
             for call, arg in T.cast(Row, r_).ints:
                 seen_args.setdefault(id(call), {})[norm(arg)] = arg
     n_int = n_assert = 0
-    for qn, fn in ((f'{PARSER}.parse_line', f.parse_line), (f'{PARSER}.parse_test', f.parse_test)):
+    covered = [(f'{PARSER}.parse_line', f.parse_line), (f'{PARSER}.parse_test', f.parse_test)] + \
+        [(f'{PARSER}.{h}', mod.func(f'{PARSER}.{h}')) for h in sorted(f.reach() - {'parse_line'})]
+    for qn, fn in covered:
         cfg = CFG(fn)
         for n in _body_nodes(fn):
             if isinstance(n, ast.Assert):
@@ -1402,7 +1432,7 @@ def r4(ctx: RuleCtx) -> None:
                f'their row; {n_ctor} event constructors get exactly their fields')
     ctx.floor('capture-group reads on rows', n_grp, 20)
     # (5) no explicit raise is reachable; the drivers contain no partial operation of their own
-    for q in ('parse_line', 'parse_test', 'parse', 'parse_async'):
+    for q in ['parse_line', 'parse_test', 'parse', 'parse_async'] + sorted(f.reach() - {'parse_line'}):
         fn = mod.func(f'{PARSER}.{q}')
         cfg = CFG(fn)
         reach = cfg.reachable([cfg.entry])
